@@ -207,6 +207,7 @@ def run_case(rs, ctx):
     ops_eq = [dict(o, features=list(reversed(o["features"]))) if o["op"] == "warm_start" else o for o in ops]
     ops_ref, ops = ops, ops_eq
     out_idle = gen.run_ops(idle, ops[:half])
+    ps0 = twin.process_state()
     d0 = [digest(idle), digest(lp), digest(tuple(np_) if np_ is not None else None)]
     leak = []
 
@@ -214,7 +215,10 @@ def run_case(rs, ctx):
         ctx.count("idle_digest_checks")
         if not leak:
             d1 = [digest(idle), digest(lp), digest(tuple(np_) if np_ is not None else None)]
-            if d1 != d0:
+            psd = twin.process_state_diff(ps0, twin.process_state())
+            if psd:
+                leak.append((desc, "interpreter-wide state (%s)" % ", ".join(psd)))
+            elif d1 != d0:
                 leak.append((desc, ["bandit state", "learning-policy tuple", "neighbourhood-policy tuple"][[a != b for a, b in zip(d0, d1)].index(True)]))
     live = {}
     for j, o in enumerate(others):
